@@ -309,23 +309,26 @@ def _real_structure(a: dict):
 REGISTRY["C16.execute_string_equals_one_by_one"].real_replay = _real_structure
 
 # ------------------------------------------------------------------ nop_regexes
-PATTERNS = [r"^CALL\s", r"create\s+stage", r"alter session", r"select\s+1\s*$", r"^\s*--skip"]
+PATTERNS = [r"^CALL\s", r"create\s+stage", r"alter session", r"select\s+1\s*$", r"insert into t2 values \(7\)"]
+# (statement, bound parameters or None, indices of the patterns that match the parameter-substituted command at its start)
 NOP_STMTS = [
-    ("call sp_do(1)", {0}),
-    ("CREATE   STAGE s url='x'", {1}),
-    ("Alter Session set x = 1", {2}),
-    ("select 1", {3}),
-    ("select 'create stage s' as c from t1", set()),  # pattern text in the middle: not a match at the start
-    ("insert into t2 values (1) -- alter session", set()),
-    ("select 1 as one from t1", set()),
-    ("create table stage1 (a int)", set()),
+    ("call sp_do(1)", None, {0}),
+    ("CREATE   STAGE s url='x'", None, {1}),
+    ("Alter Session set x = 1", None, {2}),
+    ("select 1", None, {3}),
+    ("select 'create stage s' as c from t1", None, set()),  # pattern text in the middle: not a match at the start
+    ("insert into t2 values (1) -- alter session", None, set()),
+    ("insert into t2 values (%s)", (7,), {4}),  # matches only once the parameter is substituted
+    ("insert into t2 values (%s)", (8,), set()),
+    ("select %s", (1,), {3}),
+    ("create table stage1 (a int)", None, set()),
 ]
 
 
 def _nop(si: int, mask: int, as_dict: bool) -> bool:
     from snowflake.connector.cursor import SnowflakeCursor
 
-    stmt, matching = NOP_STMTS[si]
+    stmt, params, matching = NOP_STMTS[si]
     pats = [p for j, p in enumerate(PATTERNS) if mask & (1 << j)]
     eng = std_engine()
     fs = instance(eng, nop_regexes=pats or None)
@@ -334,7 +337,7 @@ def _nop(si: int, mask: int, as_dict: bool) -> bool:
     cur = conn.cursor(DictCursor if as_dict else SnowflakeCursor)
     should_nop = any((mask & (1 << j)) for j in matching)
     try:
-        cur.execute(stmt)
+        cur.execute(stmt, params)
         out = (cur.fetchall(), cur.rowcount)
         err = None
     except Exception as e:  # noqa: BLE001
@@ -355,7 +358,7 @@ def _nop(si: int, mask: int, as_dict: bool) -> bool:
     base2 = len(eng2.log)
     cur2 = conn2.cursor(DictCursor if as_dict else SnowflakeCursor)
     try:
-        cur2.execute(stmt)
+        cur2.execute(stmt, params)
         out2, err2 = (cur2.fetchall(), cur2.rowcount), None
     except Exception as e:  # noqa: BLE001
         out2, err2 = None, type(e).__name__
@@ -365,15 +368,16 @@ def _nop(si: int, mask: int, as_dict: bool) -> bool:
 @ob(
     "C16.nop_regexes_only_noop_matches",
     encodes=["fakesnow.cursor.FakeSnowflakeCursor.execute (nop_regexes short-circuit)", "fakesnow.instance.FakeSnow.connect (option plumbing)"],
-    bounds="every subset of 5 patterns (anchored, unanchored, with \\s, with $) x 8 statements (4 that match one pattern in a different "
-    "letter case, 4 that contain pattern text away from the start or not at all) x tuple/dict cursor",
+    bounds="every subset of 5 patterns (anchored, unanchored, with \\s, with $, reaching into a substituted parameter) x 10 statements "
+    "(matching in a different letter case, matching only after parameter substitution, containing pattern text away from the start, "
+    "not matching) x tuple/dict cursor",
     timeout=(300, 600),
     stubs=["K1/K2 vf.duckstub.Engine (statements unknown to the engine such as CALL raise a parser/catalog error there)"],
-    shards=(8, 8),
+    shards=(10, 10),
 )
 def nop_regexes(si: int, mask: int, as_dict: bool) -> bool:
     """
-    pre: 0 <= si < 8 and 0 <= mask < 32 and (SHARD < 0 or si == SHARD)
+    pre: 0 <= si < 10 and 0 <= mask < 32 and (SHARD < 0 or si == SHARD)
     post: _
     """
-    return done(fast.native(_nop, fast.pick(si, 8), fast.pick(mask, 32), bool(fast.pick(as_dict, 2))))
+    return done(fast.native(_nop, fast.pick(si, 10), fast.pick(mask, 32), bool(fast.pick(as_dict, 2))))
